@@ -9,7 +9,9 @@
 //   |\  \                         \  /
 //   D E  F       E : B, X          VZ : VL, VM
 //   |    (X at non-zero offset)     |
-//   G    F : C, X                  VY
+//   G    F : C, X                  VY          (F, G and VY are `final`:
+//                                               a library may treat final
+//                                               classes specially)
 #ifndef VERIF_E2_UNIVERSE_HPP
 #define VERIF_E2_UNIVERSE_HPP
 
@@ -44,10 +46,10 @@ struct D : B {
 struct E : B, X {
     int e_pad = 7;
 };
-struct F : C, X {
+struct F final : C, X {
     int f_pad = 8;
 };
-struct G : D {
+struct G final : D {
     int g_pad = 9;
 };
 struct VR {
@@ -64,7 +66,7 @@ struct VM : virtual VR {
 struct VZ : VL, VM {
     int vz_pad = 13;
 };
-struct VY : VZ {
+struct VY final : VZ {
     int vy_pad = 14;
 };
 
